@@ -12,8 +12,8 @@ cancelled scope, so the awaitable of an asynchronous callback is cancelled at it
 checkpoint; the theorems below hold for the effective stack of every way of leaving the
 block, and `C01_cancel_*` state what cancellation changes and what it does not.
 
-Not modelled (decided on the implementation only): cancellation arriving in the middle of a
-teardown that began for another reason, shielded callbacks, real suspension of async callbacks.
+Cancellation arriving in the middle of a teardown that began for another reason: C01_mid.lean.
+Not modelled: shielded callbacks, callbacks that work before their first checkpoint.
 -/
 import AsphaltModel.Context
 import AsphaltProofs.Lemmas.Assoc
